@@ -138,6 +138,10 @@ class CallMixin:
         cur = d[name]
         items = list(cur.t[1])
         args, _ = self.eval_args(e)
+        if op == "popleft" and not args:
+            op, args = "pop", [const(0)]
+        elif op == "appendleft" and len(args) == 1:
+            op, args = "insert", [const(0), args[0]]
         dep = cur.dep | self._deps(args) | self.ctrl_symbols()
         if op == "append":
             items.append(args[0].t)
@@ -611,7 +615,7 @@ class CallMixin:
         st = self.store
         skind = "attr" if kind == "attrs" else "child"
         fr = self.frames[-1]
-        if fr.try_catch and eff in ("R",) or (fr.try_catch and op in ("__delitem__", "__setitem__")):
+        if fr.try_catch and eff in ("R",) or (fr.try_catch and op in ("__delitem__", "__setitem__", "flush", "close")):
             for rc in sorted(fr.try_catch[-1]):
                 if rc != "*" or op == "__delitem__":
                     if self.decide(("rraise", kind + "." + op, rt, kt, rc)):
@@ -683,6 +687,14 @@ class CallMixin:
 
     # ---------------------------------------------------------------- externals
     def call_external(self, dotted, args, kwargs, node):
+        if dotted == "collections.deque" and not kwargs and len(args) <= 1:
+            # a double-ended queue is modelled as a list: popleft() = pop(0), appendleft(x) = insert(0, x)
+            if not args:
+                return V(("list", ()), [py("list")])
+            a = args[0]
+            if a.t[0] in ("list", "tuple"):
+                return V(("list", a.t[1]), [py("list")], a.dep)
+            return V(("list", (("star", a.t),)), [py("list")], a.dep)
         spec = T.H5PY_CALLS.get(dotted)
         dep = self._deps(args) | self._deps(list(kwargs.values()))
         self._remember(list(args) + list(kwargs.values()))
